@@ -5,23 +5,23 @@ CONSTANTS
   TokChain <- Seq1
   TokContract <- Seq1
   TokDenom <- Seq1
-  Amounts = {2}
+  Amounts = {1, 2, 3}
   InitBal = 4
   BatchEvery = 50
   TimeoutBlocks = 300
-  Jumps = {50, 301}
+  Jumps = {1, 57599}
   Period = 57600
   TaxRates <- RateHalf
   Limits = {3}
   EstValues = {1}
-  MaxTx = 2
-  MaxBatch = 2
-  MaxClaims = 1
-  MaxHeight = 351
-  Family = "funds"
+  MaxTx = 3
+  MaxBatch = 4
+  MaxClaims = 2
+  MaxHeight = 115201
+  Family = "limits"
   EmitAt = 0
-  MaxK = 2
-  MaxOps = 7
+  MaxK = 1
+  MaxOps = 5
 VIEW GView
 INIT GInit
 NEXT GNextC
